@@ -409,6 +409,7 @@ func runC07(c *kit.Ctx) {
 	c.StartRule("R5", "what is stored into a slot is a real outcome; every queued call gets one", 4)
 	unbufferedHandoff(c)
 	clearedCallSlotsAreSkipped(c)
+	noResponseBufferRecycling(c)
 	locateFailuresClearOK(c)
 	dialStartsTheBatcher(c)
 	for _, s := range sites {
@@ -705,6 +706,7 @@ func successFlag(c *kit.Ctx, sb *ssa.Function, batchParam *ssa.Parameter) {
 	visit2(sb, sticky)
 	c.Check(okStores && ns > 0, sb, "sticky-only-ored", sticky.Pos(), "the flag is only ever assigned flag || x", "the remembered-fatal-error flag can be cleared: it is assigned something other than itself OR-ed with the latest result")
 	failedCallsRemembered(c, sb, sticky, stickyStores)
+	receivedResultIsExamined(c)
 }
 
 // failedCallsRemembered: the wait function reports through one of its boolean results that a call failed
